@@ -371,11 +371,12 @@ func powChild(g *hx.Rng, p *eth.Header, salt uint32, dt uint64) *eth.Header {
 }
 
 func (f *pow) Gen(r *hx.Run) {
-	r.Rule("synthetic header trees of 2..12 nodes (every fifth tree: a slow long fork against a fast shorter one, up to 17 nodes, to force reorganisations to a lower height and back) over a trust root (heights around the London / Arrow Glacier / Gray Glacier forks and elsewhere, " +
+	r.Rule("scripted fork scenarios (stale head inside one multi-header call, shorter-but-heavier fork and back within one call, three-way forks with re-submission of every stored header after each reorganisation) + synthetic header trees of 2..12 nodes (every fourth tree: a slow long fork against a fast shorter one, up to 17 nodes, to force reorganisations to a lower height and back) over a trust root (heights around the London / Arrow Glacier / Gray Glacier forks and elsewhere, " +
 		"difficulties from the real calculators so that sibling forks tie or differ), a few invalid / orphan / wrong-height nodes, submitted in " +
 		"random orders (child before parent, duplicates, 1..4 headers per call) through SyncBlockHeader; after every call the whole key space is " +
 		"compared with the model and the property is evaluated on the implementation's state; distinct non-trivial = distinct (tree shape, order class, outcome sequence)")
 	g := r.Rng
+	f.genScripted(r)
 	trees := r.Pick(500, 20000)
 	for t := 0; t < trees; t++ {
 		net := uint32(1)
@@ -398,14 +399,17 @@ func (f *pow) Gen(r *hx.Run) {
 		nodes := []node{{root, -1, true}}
 		n := 2 + g.Intn(r.Pick(11, 11))
 		shape := []string{}
-		longFork := t%5 == 4
+		longFork := t%4 == 3
 		if longFork {
 			// a slow chain A of 7..8 blocks (time steps of 1000 s: difficulty falls by 99/2048 per block) against a fast chain B
 			// of 6 blocks (1 s steps): B is shorter but heavier, so the head moves to a LOWER height and leaves stale
 			// main-chain entries above it; one or two more A blocks then win the head back across the stale entries.
 			n = 0
 			root.Difficulty = new(big.Int).SetUint64(1000000000000000 + g.U64()%1000000000000000)
-			la, lb := 7+g.Intn(2), 6
+			la, lb := 7, 6
+			if t%16 == 15 {
+				la = 8
+			}
 			prev := 0
 			for i := 0; i < la; i++ {
 				nodes = append(nodes, node{powChild(g, nodes[prev].h, uint32(t*100+len(nodes)), 1000), prev, true})
@@ -413,8 +417,8 @@ func (f *pow) Gen(r *hx.Run) {
 				prev = len(nodes) - 1
 			}
 			lastA := prev
-			prev = g.Intn(2) // fork from the root or from A1
-			nb := lb + prev
+			prev = 0 // fork from the root: B (6 blocks) is heavier than A (7 blocks) and one block shorter
+			nb := lb
 			for i := 0; i < nb; i++ {
 				nodes = append(nodes, node{powChild(g, nodes[prev].h, uint32(t*100+len(nodes)), 1), prev, true})
 				shape = append(shape, fmt.Sprint(prev))
